@@ -50,7 +50,7 @@ SoftNames == { "no-secret-residue-on-dead-stack", "input-not-modified", "key-lef
                "output-terminated-inside-buffer", "returned-length-is-string-length", "memzero-through-injected",
                "keygen-caller-buffer", "query-uses-no-dependency", "store-uses-no-dependency",
                "inject-uses-no-dependency", "separators-and-flags", "published-languages-in-published-order",
-               "ten-languages", "detected-language", "kdf-inputs-well-formed", "serialisation-of-the-seed",
+               "ten-languages", "detected-language", "kdf-inputs-of-the-seed", "secret-padding-is-zero", "serialisation-of-the-seed",
                "birthday-of-the-seed", "features-of-the-seed", "birthday-value", "feature-query",
                "encrypted-flag", "enable-returns-number-of-user-bits", "serialised-bytes",
                "keygen-password-32-bytes", "keygen-password", "keygen-salt-32-bytes", "keygen-salt",
@@ -124,14 +124,20 @@ WellShapedKdfInputs(p) ==
     /\ SubSeq(p.pw, 20, 32) = Zeros(13)
     /\ p.salt = KeygenSalt(ObservedSeed(p), 0)
 
-EntryCondsObs(p, s, tt, shaped, o) ==
-    << Cond("kdf-inputs-well-formed", {"C04", "C13"}, shaped),
-       Cond("seed-state", {"C13"} \cup tt, o = s),
-       Cond("serialisation-of-the-seed", {"C06", "C13"} \cup tt, p.img = StoreImage(o)),
-       Cond("birthday-of-the-seed", {"C11", "C13"}, FromLimbs16(p.bd) = TimeOfBirthday(o.birthday)),
+\* Two independent observations of a live seed: its serialised image and its KDF inputs.  If one of them
+\* agrees with the model's seed, the seed is right and the other observation's function is at fault.
+EntryCondsObs(p, s, tt, imgOK, kdfOK) ==
+    << Cond("seed-state", {"C13"} \cup tt, imgOK \/ kdfOK),
+       Cond("serialisation-of-the-seed", {"C06", "C13"} \cup tt, kdfOK => imgOK),
+       Cond("kdf-inputs-of-the-seed", {"C04", "C13"}, imgOK => kdfOK),
+       \* the 13 bytes after the secret are part of the KDF password: a constructor that leaves what the
+       \* allocator handed out there relies on fresh memory being zero
+       Cond("secret-padding-is-zero", {"C04", "C13", "C15"}, Len(p.pw) = 32 => SubSeq(p.pw, 20, 32) = Zeros(13)),
+       Cond("birthday-of-the-seed", {"C11", "C13"}, FromLimbs16(p.bd) = TimeOfBirthday(s.birthday)),
        Cond("features-of-the-seed", {"C10", "C13"},
-            p.ft = o.features % 8 /\ p.enc = (IF IsEncrypted(o.features) THEN 1 ELSE 0)) >>
-EntryCondsShaped(p, s, tt, shaped) == EntryCondsObs(p, s, tt, shaped, IF shaped THEN ObservedSeed(p) ELSE s)
+            p.ft = s.features % 8 /\ p.enc = (IF IsEncrypted(s.features) THEN 1 ELSE 0)) >>
+EntryCondsShaped(p, s, tt) ==
+    EntryCondsObs(p, s, tt, p.img = StoreImage(s), p.pw = KeygenPw(s) /\ p.salt = KeygenSalt(s, 0))
 
 \* conditions for one logged live entry p against the model seed s; tt = op tags if p is the call's target
 EntryConds(p, s, tt) ==
@@ -140,7 +146,7 @@ EntryConds(p, s, tt) ==
          = [img |-> proj[p.h].img, pw |-> proj[p.h].pw, salt |-> proj[p.h].salt, bd |-> proj[p.h].bd,
             ft |-> proj[p.h].ft, enc |-> proj[p.h].enc]
     THEN <<>>
-    ELSE EntryCondsShaped(p, s, tt, WellShapedKdfInputs(p))
+    ELSE EntryCondsShaped(p, s, tt)
 
 RECURSIVE LiveConds(_, _, _, _)
 LiveCondsWith(live, nh, t) == LiveConds(live, 1, nh, t)
